@@ -117,6 +117,10 @@ type c16Msg struct {
 	flavour  int
 	recips   []int
 	psk      []byte
+	legacy   []bool   // per recipient: SM2-wrapped key in the CFCA-legacy C1C2C3 form
+	sess     *c16Sess // the caller-supplied session the builder used (nil: none / default)
+	stripped bool     // authenticated attributes removed after signing: the message must not verify
+	sigExtra bool     // every signer added the extra signed attribute 1.2.3.4.5.6
 }
 
 type c16X struct {
@@ -130,6 +134,8 @@ type c16X struct {
 	kind   string
 	judged int
 	mv     bool
+	via    int // parse path of the current delivery (see parse)
+	at     int // explicit time of VerifyWithChainAtTime (0: the simulated now)
 }
 
 func (x *c16X) fail(class, format string, args ...any) {
@@ -248,6 +254,10 @@ func (x *c16X) run() {
 			x.doPsk(o)
 		case "sed":
 			x.doSed(o)
+		case "envs":
+			x.doEnvS(o)
+		case "degen":
+			x.doDegen(o)
 		case "dlv":
 			x.doDeliver(o)
 		case "all":
@@ -398,6 +408,15 @@ func (x *c16X) doSign(o sim.Op) {
 	rch := o.Int(5)
 	content := append([]byte{}, o.Bytes(0)...) // ledger copy
 	sgs := x.signerList(o, 7, o.Int(6))
+	nlist := o.Int(6)
+	if nlist < 1 {
+		nlist = 1
+	}
+	if nlist > 3 {
+		nlist = 3
+	}
+	post := c16Mod(o.Int(7+2*nlist), 4)   // 1: RemoveUnauthenticatedAttributes, 2: RemoveAuthenticatedAttributes, 3: both
+	encSel := c16Mod(o.Int(8+2*nlist), 3) // SetEncryptionAlgorithm before each signer: 0 never, 1 / 2 an identifier fitting key and digest
 	switch mode {
 	case 2: // digest-only with attributes: one digest for all signers
 		keep := sgs[:1]
@@ -421,6 +440,7 @@ func (x *c16X) doSign(o sim.Op) {
 		smOID = true
 		certopt = 1
 		extras = 0
+		post, encSel = 0, 0
 		if mode == 5 {
 			detached = true
 		}
@@ -428,13 +448,16 @@ func (x *c16X) doSign(o sim.Op) {
 	if digestOnly {
 		detached = true // the message never carries content
 	}
-	abs := []any{"sign", smOID, mode, detached, certopt, extras, rch != 0, sim.LenClass(len(content), 16)}
+	abs := []any{"sign", smOID, mode, detached, certopt, extras, rch != 0, sim.LenClass(len(content), 16), post, encSel}
 	for _, s := range sgs {
 		abs = append(abs, w.parties[s.party].name, s.alg)
 	}
 	c.Abs(abs...)
 
 	m := &c16Msg{kind: c16KSign, content: content, detached: detached, noattr: noattr, asDigest: digestOnly, hasCerts: certopt != 3}
+	m.stripped = post&2 == 2 && !noattr
+	m.sigExtra = extras&1 == 1 && !noattr
+	var snap []c16Snap
 	// ledger side of the digests
 	for _, s := range sgs {
 		rec := &c16Rec{party: s.party, alg: s.alg, hasAttr: !noattr}
@@ -479,6 +502,9 @@ func (x *c16X) doSign(o sim.Op) {
 		for _, s := range sgs {
 			pt := w.parties[s.party]
 			sd.SetDigestAlgorithm(c16DigestOID[s.alg])
+			if encSel > 0 {
+				sd.SetEncryptionAlgorithm(c16EncOID(pt, s.alg, encSel))
+			}
 			cfg := pkcs7.SignerInfoConfig{SkipCertificates: certopt == 3}
 			if extras&1 == 1 && !noattr {
 				cfg.ExtraSignedAttributes = []pkcs7.Attribute{{Type: asn1.ObjectIdentifier{1, 2, 3, 4, 5, 6}, Value: "verif signed " + pt.name}}
@@ -505,6 +531,15 @@ func (x *c16X) doSign(o sim.Op) {
 					sd.AddCertificate(w.inter)
 					added = true
 				}
+			}
+		}
+		if post != 0 {
+			snap = c16SnapSigners(sd)
+			if post&2 == 2 {
+				sd.RemoveAuthenticatedAttributes()
+			}
+			if post&1 == 1 {
+				sd.RemoveUnauthenticatedAttributes()
 			}
 		}
 		if detached && !digestOnly {
@@ -542,7 +577,11 @@ func (x *c16X) doSign(o sim.Op) {
 		x.fail("malformed-output", "attached content of the produced message differs from the signed content (present=%v, detached=%v)", has, detached)
 		return
 	}
-	for _, rec := range m.recs {
+	if post != 0 && len(snap) != len(m.recs) {
+		x.fail("malformed-output", "GetSignedData lists %d signer-infos before Finish, %d signers were added", len(snap), len(m.recs))
+		return
+	}
+	for ri, rec := range m.recs {
 		pc := w.parties[rec.party].cert
 		var v *c16SIView
 		for i := range views {
@@ -552,6 +591,52 @@ func (x *c16X) doSign(o sim.Op) {
 		}
 		if v == nil {
 			x.fail("malformed-output", "no signer-info names issuer+serial of signer %s", w.parties[rec.party].name)
+			return
+		}
+		// unauthenticated attributes: present exactly when asked for and not removed afterwards
+		wantUnauth := extras&2 == 2 && !noattr && post&1 == 0
+		hasExtra := false
+		for _, u := range v.unauth {
+			hasExtra = hasExtra || bytes.Equal(u, c16OIDUnsignedExtra)
+		}
+		if wantUnauth != v.hasUnauth || wantUnauth != hasExtra {
+			x.fail("malformed-output", "signer %s: unauthenticated attributes present=%v (the configured one: %v), expected %v (ExtraUnsignedAttributes=%v, RemoveUnauthenticatedAttributes=%v)", w.parties[rec.party].name, v.hasUnauth, hasExtra, wantUnauth, extras&2 == 2 && !noattr, post&1 == 1)
+			return
+		}
+		if post&1 == 1 {
+			c.Hit("probe:unauth-removed")
+		}
+		if noattr && encSel > 0 {
+			// SignWithoutAttr names the identifier set by SetEncryptionAlgorithm
+			want := c16OIDContent(c16EncOID(w.parties[rec.party], rec.alg, encSel))
+			if !bytes.Equal(v.encOID, want) {
+				x.fail("malformed-output", "signer %s: digestEncryptionAlgorithm %x, SetEncryptionAlgorithm was given %x", w.parties[rec.party].name, v.encOID, want)
+				return
+			}
+			c.Hit("probe:enc-alg-set")
+		}
+		if m.stripped {
+			// the builder dropped the attributes after signing: the signature value stays the one made over them
+			sn := snap[ri]
+			if v.hasAttr {
+				x.fail("malformed-output", "signer %s: RemoveAuthenticatedAttributes left authenticated attributes in the message", w.parties[rec.party].name)
+				return
+			}
+			if !bytes.Equal(v.sig, sn.sig) || sn.attrs == nil {
+				x.fail("malformed-output", "signer %s: signature value changed by RemoveAuthenticatedAttributes (or no attributes before it)", w.parties[rec.party].name)
+				return
+			}
+			rec.sig, rec.attrs = v.sig, sn.attrs
+			if !x.indepVerify(rec, &c16SIView{attrsSet: sn.attrsSet}) {
+				x.fail("independent-verify-failed", "signer %s: the signature kept by RemoveAuthenticatedAttributes is not one over the attributes the builder held", w.parties[rec.party].name)
+				return
+			}
+			c.Hit("probe:attr-removed")
+			x.recs = append(x.recs, rec)
+			continue
+		}
+		if post != 0 && !bytes.Equal(v.sig, snap[ri].sig) {
+			x.fail("malformed-output", "signer %s: signature value differs from the one the builder held before Remove*Attributes", w.parties[rec.party].name)
 			return
 		}
 		if v.hasAttr != rec.hasAttr {
@@ -727,7 +812,11 @@ func (x *c16X) doEnv(o sim.Op) {
 		return // nothing is demanded of such a message
 	}
 	c.Out("env.der", der)
-	x.msgs = append(x.msgs, &c16Msg{kind: c16KEnv, der: der, content: content, cipher: ci, flavour: flav, recips: rs})
+	legacy := make([]bool, len(rs))
+	for i := range legacy {
+		legacy[i] = flav == 2 || flav == 5
+	}
+	x.msgs = append(x.msgs, &c16Msg{kind: c16KEnv, der: der, content: content, cipher: ci, flavour: flav, recips: rs, legacy: legacy})
 	x.ivProbe(der, rch)
 	x.berIdentity(der)
 }
@@ -834,6 +923,10 @@ func (x *c16X) doSed(o sim.Op) {
 				return
 			}
 		}
+		if o.Int(5+2*ns+c16SedNR(nr))&1 == 1 {
+			sed.AddCertificate(w.extra) // a neutral addition to the certificate list
+			c.Hit("probe:sed-certificate-added")
+		}
 		der, err = sed.Finish()
 	})
 	c.OutErr("sed.err", err)
@@ -875,6 +968,17 @@ func (x *c16X) doSed(o sim.Op) {
 	x.msgs = append(x.msgs, m)
 	x.ivProbe(der, rch)
 	x.berIdentity(der)
+}
+
+// c16SedNR is the number of recipient ints a "sed" op carries (recipList's clamp).
+func c16SedNR(n int) int {
+	if n < 1 {
+		n = 1
+	}
+	if n > 4 {
+		n = 4
+	}
+	return n
 }
 
 // ---- the DER inputs of the BER normaliser ----
